@@ -228,3 +228,12 @@ CHECKS["C26"] = {
     "level_note": "lock-step execution (each call returns before the next starts); programs are legal by the library's documentation (Publish only on registered/short/predefined topics; after Sleep only Sleep/Connect/Disconnect)",
     "design_ref": "3/C26",
 }
+
+CHECKS["C32"] = {
+    "level": "exploration",
+    "exhaustive": True,
+    "technique": "runtime monitoring: name-equality oracle over the broker-side trace and the client's handler events in a world where the real client library and the real gateway session share one predefined-topic map",
+    "level_text": "All 256 predefined maps of a small space (two clients/'*', two IDs, three names incl. a 2-byte one) and hundreds of random larger maps with client-specific/'*' overlaps and shadowing are shared by the real client and the real gateway; every name of the map, unknown names and random 2-byte names are published/subscribed exactly as the command-line tools do (GetTopicID, else short) and also published by the broker. The oracle compares names only: what the broker saw with what the client used, and what the handler got with what the broker sent.",
+    "level_note": "exhaustive only for the small configuration space; lossless lock-step delivery; 2-byte names with wildcard characters are left out (not publishable in MQTT)",
+    "design_ref": "3/C32",
+}
